@@ -284,8 +284,9 @@ class CSVWriter(rbql_engine.RBQLOutputWriter):
                 fields[i] = ''
                 self.none_in_output = True
             elif isinstance(fields[i], list):
-                self.normalize_fields(fields[i])
-                fields[i] = self.sub_array_delim.join(fields[i])
+                sub_fields = fields[i][:] # A list-valued cell may be an object of the input table: work on a copy of it
+                self.normalize_fields(sub_fields)
+                fields[i] = self.sub_array_delim.join(sub_fields)
             else:
                 fields[i] = str(fields[i])
 
